@@ -194,6 +194,19 @@ def run_c09(case):
                     loss.backward(retain_graph=True)
                     pg = [p.grad.detach().clone() if p.grad is not None else None for p in model.parameters()]
                     res_pair.append((y.detach(), g1.detach(), g2.detach(), pg))
+                # data-driven training: the trunk input does NOT require grad
+                plain = []
+                for model in (net, twin):
+                    xi = (x if layout == "shared" else x.unsqueeze(0).repeat(F, 1, 1)).clone()
+                    y = model(tp.spaces.Points(xi, sp["T"])).as_tensor
+                    model.zero_grad()
+                    ((y - 0.3) ** 2).sum().backward(retain_graph=True)
+                    plain.append([p.grad.detach().clone() if p.grad is not None else None for p in model.parameters()])
+                for q1, q2 in zip(*plain):
+                    if (q1 is None) != (q2 is None) or (q1 is not None and not torch.allclose(q1, q2, rtol=2e-3, atol=1e-5)):
+                        out.append(viol("C09", "twin", "fast-path-parameter-gradient-differs-without-input-grad", "",
+                                        missing=bool(q1 is None)))
+                        break
                 (y1, a1, b1, p1), (y2, a2, b2, p2) = res_pair
                 stats["twin_checks"] = stats.get("twin_checks", 0) + 1
                 if not torch.allclose(y1, y2, rtol=1e-4, atol=1e-5):
